@@ -284,9 +284,9 @@ def _vv_differs(stored, now):
 
 def _flat(x):
     out = set()
-    if isinstance(x, list):
+    if isinstance(x, (list, tuple)):
         for e in x:
-            out |= _flat(e) if isinstance(e, list) else {e}
+            out |= _flat(e) if isinstance(e, (list, tuple)) else {e}
     return out
 
 
